@@ -729,5 +729,30 @@ theorem chemMassL_close (ν₁ ν₂ : Elem → Rat) (ε : Rat) (keys : List Ele
     rw [chemMassL_cons, chemMassL_cons, hl]
     constructor <;> nlinarith
 
+
+/-! ### precision is applied last -/
+
+theorem fastMass_precision_last (env : Env) (a : Annotation) (o : Opts) (r : Resolved) :
+    fastMass env a o r = (fastMass env a { o with precision := none } r).map (fun x => roundOpt x o.precision) := by
+  unfold fastMass
+  cases staticMass env o.mono a.seq a.static with
+  | error e => rfl
+  | ok st =>
+    cases residueMass o.mono a.seq with
+    | error e => rfl
+    | ok rs =>
+      cases placedModsMass env o.mono a o.ion with
+      | error e => rfl
+      | ok pm =>
+        simp only [bind_ok]
+        unfold adjustMass
+        dsimp only
+        cases Mass.chargeTerm (r.charge.getD 0) o.ion o.mono r.adducts with
+        | error e => rfl
+        | ok ct =>
+          cases fragmentAdjMass o.mono o.ion with
+          | none => rfl
+          | some fa => rfl
+
 end Mass
 end Pept
